@@ -47,6 +47,10 @@ def build(program: dict) -> dict:
             steps: list = [("td", f"td:{p}:{phase}"), ("gate", "g"), ("tdn" if phase == "start" else "td", f"td2:{p}:{phase}")]
             nd[phase] = steps
     end = program["end"]
+    root = paths(spec)[0][1]
+    root["prepare"].insert(1, ("add", "RAB", "multi", "m", True))  # two types, ONE teardown callback
+    if program.get("gen"):
+        root["gen_start"] = True  # start() is a @context_teardown generator that registers callbacks before it yields
     if end["kind"] == "fail":
         for p, nd in paths(spec):
             if p == end["path"]:
@@ -123,6 +127,10 @@ class C15(E1Check):
                         continue
                     progs.append({"tree": tree, "cli": True, "svc": svc, "end": {"kind": "run-return", "value": vi}})
                 progs.append({"tree": tree, "cli": True, "svc": svc, "end": {"kind": "run-raise"}})
+                for cli in (False, True):
+                    progs.append({"tree": tree, "cli": cli, "svc": svc, "gen": True, "end": {"kind": "signal", "sig": "SIGTERM"}})
+                    progs.append({"tree": tree, "cli": cli, "svc": svc, "gen": True, "end": {"kind": "fail", "path": ps[-1], "phase": "start", "pos": "after"}})
+                progs.append({"tree": tree, "cli": True, "svc": svc, "gen": True, "end": {"kind": "run-return", "value": 3}})
                 for cli in (False, True):
                     for p in ps:
                         for phase in ("ctor", "prepare", "start"):
